@@ -17,21 +17,24 @@ import (
 // untouched, and afterwards commands reach exactly the connection that owns each key.
 
 type mixedCase struct {
-	Owners     int   `json:"owners"`
-	Duplicates []int `json:"duplicate_presents_owner"` // per duplicate connection: index of the owner whose key it presents
-	Fresh      int   `json:"fresh"`
-	V2019      bool  `json:"v2019"`
-	JitterUs   []int `json:"jitter_us"` // per joining connection: pause between the barrier and the hello
-	JoinHoldUs int   `json:"join_hold_us"`
-	Procs      int   `json:"gomaxprocs,omitempty"`
-	Waves      int   `json:"waves"`            // the same group of duplicates and fresh connections (new free keys each time) arrives this many times, one wave after the other
-	Silent     bool  `json:"silent_callbacks"` // the server-side callbacks record nothing (their recorder lock would stagger the readers just before they join)
+	Owners      int   `json:"owners"`
+	Duplicates  []int `json:"duplicate_presents_owner"` // per duplicate connection: index of the owner whose key it presents
+	Fresh       int   `json:"fresh"`
+	V2019       bool  `json:"v2019"`
+	JitterUs    []int `json:"jitter_us"` // per joining connection: pause between the barrier and the hello
+	JoinHoldUs  int   `json:"join_hold_us"`
+	Procs       int   `json:"gomaxprocs,omitempty"`
+	DoubleHello bool  `json:"first_write_carries_two_frames,omitempty"` // every joining connection sends its hello and a second heartbeat in one write
+	LeaveSend   bool  `json:"leave_callback_sends_a_command,omitempty"`
+	Waves       int   `json:"waves"`            // the same group of duplicates and fresh connections (new free keys each time) arrives this many times, one wave after the other
+	Silent      bool  `json:"silent_callbacks"` // the server-side callbacks record nothing (their recorder lock would stagger the readers just before they join)
 }
 
 func genMixed(t *rapid.T) mixedCase {
 	c := mixedCase{Owners: rapid.IntRange(1, 3).Draw(t, "owners"), Fresh: rapid.IntRange(1, 6).Draw(t, "fresh"), V2019: rapid.Bool().Draw(t, "v2019"),
 		JoinHoldUs: rapid.SampledFrom([]int{0, 0, 300, 2000}).Draw(t, "join_hold"), Silent: rapid.IntRange(0, 3).Draw(t, "silent") != 0,
-		Procs: rapid.SampledFrom([]int{0, 1, 2, 3, 4}).Draw(t, "procs"), Waves: rapid.IntRange(1, 12).Draw(t, "waves")}
+		Procs: rapid.SampledFrom([]int{0, 1, 2, 3, 4}).Draw(t, "procs"), Waves: rapid.IntRange(1, 12).Draw(t, "waves"),
+		DoubleHello: rapid.IntRange(0, 2).Draw(t, "double_hello") == 0, LeaveSend: rapid.IntRange(0, 2).Draw(t, "leave_send") == 0}
 	for i, n := 0, rapid.IntRange(1, 6).Draw(t, "dups"); i < n; i++ {
 		c.Duplicates = append(c.Duplicates, rapid.IntRange(0, c.Owners-1).Draw(t, "dup_of"))
 	}
@@ -47,7 +50,7 @@ func mixedIdentity(i int, v2019 bool) identity {
 
 func checkMixed(c mixedCase, _ *kit.Collector) kit.Result {
 	res := kit.Result{}
-	sc := Scenario{JoinHoldUs: c.JoinHoldUs, Silent: c.Silent, Procs: c.Procs}
+	sc := Scenario{JoinHoldUs: c.JoinHoldUs, Silent: c.Silent, Procs: c.Procs, OnLeaveSend: c.LeaveSend}
 	hb := func(id identity, serial uint16) []byte { return frame(id, 0x0002, serial, nil) }
 	joiners := len(c.Duplicates) + c.Fresh
 	all := c.Owners + joiners*c.Waves + 1
@@ -76,11 +79,17 @@ func checkMixed(c mixedCase, _ *kit.Collector) kit.Result {
 			} else {
 				steps = append(steps, Step{Op: "barrier", Barrier: fmt.Sprintf("wave%d_over", w-1), Parties: 2 * joiners}, Step{Op: "barrier", Barrier: fmt.Sprintf("wave%d_go", w), Parties: joiners})
 			}
-			steps = append(steps, Step{Op: "pause", PauseUs: c.JitterUs[j]}, Step{Op: "write", Hex: hb(id, uint16(500+j))})
+			hello := hb(id, uint16(500+j))
+			helloFrames := 1
+			if c.DoubleHello {
+				hello = append(hello, hb(id, uint16(700+j))...)
+				helloFrames = 2
+			}
+			steps = append(steps, Step{Op: "pause", PauseUs: c.JitterUs[j]}, Step{Op: "write", Hex: hello})
 			if dup {
 				steps = append(steps, Step{Op: "wait_eof", DeadlineMs: 3000})
 			} else {
-				steps = append(steps, Step{Op: "wait_frames", N: 1, DeadlineMs: 3000})
+				steps = append(steps, Step{Op: "wait_frames", N: helloFrames, DeadlineMs: 3000})
 			}
 			if w < c.Waves-1 {
 				steps = append(steps, Step{Op: "barrier", Barrier: fmt.Sprintf("wave%d_over", w), Parties: 2 * joiners})
@@ -156,8 +165,8 @@ func checkMixed(c mixedCase, _ *kit.Collector) kit.Result {
 			res.Err = kit.Fail("%s presented a free key (while %d duplicates of online keys said hello at the same instant) and was closed by the server", name, len(c.Duplicates))
 			return res
 		}
-		if r != 1 {
-			res.Err = fmt.Errorf("SOFT %s presented a free key and got %d replies to its hello", name, r)
+		if want := 1 + btoi(c.DoubleHello); r != want {
+			res.Err = fmt.Errorf("SOFT %s presented a free key and got %d of %d replies to its first write", name, r, want)
 			return res
 		}
 		if len(cmds) != 1 || len(cmds[0]) != 3 || cmds[0][0] != 0xc2 || int(cmds[0][1]) != w || int(cmds[0][2]) != f {
@@ -193,6 +202,12 @@ func checkMixed(c mixedCase, _ *kit.Collector) kit.Result {
 				badJoins++
 			}
 		}
+	}
+	if c.DoubleHello {
+		res.Labels = append(res.Labels, "first_write_carries_two_frames")
+	}
+	if c.LeaveSend {
+		res.Labels = append(res.Labels, "leave_callback_sends_a_command")
 	}
 	if !c.Silent && (okJoins != c.Owners+c.Fresh*c.Waves || badJoins != len(c.Duplicates)*c.Waves) {
 		res.Err = kit.Fail("join callback: %d successful and %d refused announcements, want %d and %d", okJoins, badJoins, c.Owners+c.Fresh*c.Waves, len(c.Duplicates)*c.Waves)
